@@ -274,6 +274,11 @@ class CacheRoles:
                 continue
             sides = [t.left, t.comparators[0]]
             reads_table = [any(isinstance(x, ast.Name) and x.id == self.table for x in ast.walk(s)) for s in sides]
+            if isinstance(t.ops[0], (ast.Is, ast.IsNot)) and any(isinstance(s_, (ast.Tuple, ast.List, ast.Dict, ast.Set)) for s_ in sides) \
+                    and any(reads_table):
+                # identity with a display built for the comparison: never the same object
+                self.bad_ownership.append((n, 'compares the table entry by identity with a freshly built tuple, which is never the same object'))
+                continue
             has_event = [any(isinstance(x, (ast.Name, ast.Subscript)) and norm(x) == self.event_var for x in ast.walk(s)) for s in sides]
             if (reads_table[0] and has_event[1] and not reads_table[1]) or \
                (reads_table[1] and has_event[0] and not reads_table[0]):
